@@ -1,8 +1,10 @@
 package position
 
 import (
+	"strings"
 	"testing"
 
+	"github.com/fatih/color"
 	"github.com/google/go-cmp/cmp"
 )
 
@@ -24,6 +26,50 @@ func TestLocationString(t *testing.T) {
 	for name, tc := range tests {
 		t.Run(name, func(t *testing.T) {
 			got := tc.in.String()
+			if diff := cmp.Diff(tc.want, got); diff != "" {
+				t.Fatal(diff)
+			}
+		})
+	}
+}
+
+func TestLocationHumanStringWithSource(t *testing.T) {
+	longLine := "println(" + strings.Repeat("1 + ", 20)
+	tests := map[string]struct {
+		in     *Location
+		source string
+		want   string
+	}{
+		"span of a token": {
+			in:     NewLocation("foo.elk", NewSpan(New(3, 1, 4), New(7, 1, 8))),
+			source: "if style == FOO",
+			want:   "foo.elk:1:4\n  1 | if style == FOO\n         └───┤\n             └ Here\n",
+		},
+		"end of file after a short line": {
+			in:     NewLocation("foo.elk", NewSpan(New(8, 1, 9), New(7, 1, 8))),
+			source: "println(",
+			want:   "foo.elk:1:9\n  1 | println(\n              │\n              └ Here\n",
+		},
+		"end of file after a line longer than the excerpt": {
+			in:     NewLocation("foo.elk", NewSpan(New(len(longLine), 1, len(longLine)+1), New(len(longLine)-1, 1, len(longLine)))),
+			source: longLine,
+			want:   "foo.elk:1:89\n  1 | ...1 + 1 + 1 + 1 + 1 + 1 + 1 + 1 + 1 + 1 + 1 + 1 + 1 + 1 + 1 + 1 + 1 + 1 + 1 + 1 + ...\n" + strings.Repeat(" ", 89) + "│\n" + strings.Repeat(" ", 89) + "└ Here\n",
+		},
+		"span reaching past the end of the source": {
+			in:     NewLocation("foo.elk", NewSpan(New(4, 1, 5), New(12, 1, 13))),
+			source: "foo %/[a/",
+			want:   "foo.elk:1:5\n  1 | foo %/[a/\n          └───┤\n              └ Here\n",
+		},
+	}
+
+	accent := color.New()
+	accent.DisableColor()
+	for name, tc := range tests {
+		t.Run(name, func(t *testing.T) {
+			got, err := tc.in.HumanStringWithSource(tc.source, false, nil, accent)
+			if err != nil {
+				t.Fatalf("unexpected error: %s", err)
+			}
 			if diff := cmp.Diff(tc.want, got); diff != "" {
 				t.Fatal(diff)
 			}
